@@ -58,6 +58,8 @@ struct Preprocessor {
 
 // How many times macro output may in turn be the call of a macro.
 const MACRO_OUTPUT_DEPTH_LIMIT: usize = 200;
+// A defmac body runs at compile time with the same step budget as a defmacro.
+const DEFMAC_TIME_LIMIT: usize = 1000000;
 
 fn compose_defconst(loc: Srcloc, name: &[u8], sexp: Rc<SExp>) -> Rc<SExp> {
     Rc::new(enlist(
@@ -365,7 +367,7 @@ impl Preprocessor {
                             compiled_program,
                             args.clone(),
                             Some(ppext),
-                            None,
+                            Some(DEFMAC_TIME_LIMIT),
                         )
                         .map(nilize)
                         .map_err(CompileErr::from)?;
